@@ -67,9 +67,18 @@ def check(tier, seed):
         for tag, skb, pkb in fam.boundary_t_keys(rng, s, want=2 if tier == 'quick' else 8):
             cases.append({'line': f"derive {s} bytes:{skb.hex()}", 'tag': 'derive on boundary key: ' + tag.split('(')[0].strip(),
                           'want': (lambda e: (lambda o: None if o.startswith('ok ') and o.endswith('bytes=' + e) else 'derived public key must be pkEncode(rho, Power2Round(A s1 + s2 mod q).t1)'))(pkb.hex()), 'model': True})
+    # structurally extreme accepted keys: every s1 / s2 field the same code, for every in-range code
+    for s in fam.SETS:
+        p = R.PARAMS[s]
+        _, sk0 = fam.keypair(s, bytes(32))
+        for tag, skb, ok in fam.constant_field_keys(s, sk0):
+            if ok and tag.startswith('s1, s2'):
+                pkb = fam.ref_derive(p, skb)
+                cases.append({'line': f"derive {s} bytes:{skb.hex()}", 'tag': 'derive on constant-field key',
+                              'want': (lambda e: (lambda o: None if o.startswith('ok ') and o.endswith('bytes=' + e) else 'derived public key must be pkEncode(rho, Power2Round(A s1 + s2 mod q).t1)'))(pkb.hex()), 'model': 'field = 0' in tag})
     core.run_and_judge(rep, cases, model_every=0)
     return core.finish(rep, b, 'proof', {
         'rule': 'one case per (set, seed, sk provenance in {generated, round-tripped}): derived struct fields and bytes compared with the generated public key; '
                 'verification decisions with derived keys on valid / invalid signatures; non-trivial = distinct seed whose derived key was compared field by field',
         'tie': 'correspondence + property oracle (struct equality, decision equality)'},
-        ['equality of the recomputed t (NTT pipeline) for all keys rests on C18; proved here: rho and tr are copied, the derivation does not read K or t0'])
+        ['Lean: the derived struct equals the generated one for every generated pair (Props/C11b); the reference derivation is the independent oracle for constructed keys'])
